@@ -67,6 +67,31 @@ Theorem C16_dump_load : forall (jparse : str -> option jval) l,
 Proof. exact dump_load. Qed.
 Print Assumptions C16_dump_load.
 
+(* OPEN CHOICE made explicit: C16 fixes the loaded VALUE, not the intermediate comment-free text.
+   Allowed stripped texts for s: every out with strip_ok s out, i.e. equal to the pinned [strip s] up
+   to WHICH line-break character (CR or LF) stands at each line end.  The pinned behaviour is one
+   element, "a text without '#' is returned unchanged" is another, and — JSON being blind to CR
+   versus LF (premise nl_blind; python's json is not modelled) — every element loads to the same
+   result, so every clause about load holds for each of them. *)
+Theorem C16_strip_choice : forall s,
+  strip_ok s (strip s) /\
+  (~ In cH s -> strip_ok s s) /\
+  (forall jparse out, nl_blind jparse -> strip_ok s out -> load_from jparse out = load jparse s).
+Proof.
+  intro s. split; [apply strip_ok_pinned|]. split; [apply strip_ok_unchanged|].
+  intros jparse out. apply strip_ok_same_load.
+Qed.
+Print Assumptions C16_strip_choice.
+
+(* OPEN CHOICE made explicit: the layout of the dumped text.  For ANY printer: if comment stripping
+   leaves its output alone (true of the pinned printer by C16_dump_untouched) and json reads the
+   output back as d, then load (dump d) = d. *)
+Theorem C16_dump_load_any_printer : forall (jparse : str -> option jval) text l,
+  strip text = text -> jparse text = Some (JObj l) -> ~ dup_in (JObj l) ->
+  load jparse text = LOk (JObj l).
+Proof. intros jparse text l Hs Hj Hd. apply load_ok; [rewrite Hs; assumption | assumption]. Qed.
+Print Assumptions C16_dump_load_any_printer.
+
 (* ---- typed structures --------------------------------------------------------------------- *)
 (* parse either succeeds or fails with a configuration error whose path extends the current path
    by the relative path of an item that really is offending (bad_at); there is no other outcome *)
@@ -129,38 +154,45 @@ Proof. exact reparse_stable. Qed.
 Print Assumptions C16_reparse_stable.
 
 (* ---- class check (_check_config_struct_type) -------------------------------------------- *)
+(* OPEN CHOICE made explicit: pol says, per family of alternative spellings (AAlt: `X | None`,
+   `list[X]`, ...), whether an implementation refuses the spelling or handles it exactly as the
+   annotation it abbreviates.  Every theorem of this part holds FOR EVERY pol: whichever choice an
+   implementation makes, the class check accepts exactly what denotes an accepted type and checked
+   classes parse inside the accepted grammar, where all theorems above apply.  The code at the time
+   of writing is the element pol = (fun _ => false). *)
 (* the check accepts an annotation iff it stands for a type of the accepted grammar cty (scalars,
    Any, Optional, List, Dict[str,.], both Tuple forms, structures, bare List/Dict/Tuple) — at any
    depth; multi-member Unions, non-string-key Dicts, the builtin tuple and unrecognised annotations
    are refused *)
-Theorem C16_check_accepts_grammar : forall a p,
-  check a p = COk <-> exists T, denote a = Some T.
+Theorem C16_check_accepts_grammar : forall pol a p,
+  check pol a p = COk <-> exists T, denote pol a = Some T.
 Proof. exact check_ok_denotes. Qed.
 Print Assumptions C16_check_accepts_grammar.
 
 (* a refusal carries the definition path of an annotation that really is outside the grammar, with
    the matching message kind; and any such annotation anywhere makes the check refuse *)
-Theorem C16_check_refusal_located : forall a,
-  (forall p k q, check a p = CErr k q -> exists q', q = p ++ q' /\ unsup_at a q' k) /\
-  (forall q k, unsup_at a q k -> forall p, exists k' q', check a p = CErr k' (p ++ q') /\ unsup_at a q' k').
-Proof. intro a. split; [exact (proj1 ce_all a) | exact (unsup_refused a)]. Qed.
+Theorem C16_check_refusal_located : forall pol a,
+  (forall p k q, check pol a p = CErr k q -> exists q', q = p ++ q' /\ unsup_at pol a q' k) /\
+  (forall q k, unsup_at pol a q k ->
+     forall p, exists k' q', check pol a p = CErr k' (p ++ q') /\ unsup_at pol a q' k').
+Proof. intros pol a. split; [exact (proj1 (ce_all pol) a) | exact (unsup_refused pol a)]. Qed.
 Print Assumptions C16_check_refusal_located.
 
 (* on every annotation that stands for an accepted type the parser for arbitrary annotations is the
    parser of the accepted grammar ... *)
-Theorem C16_parse_ann_is_parse : forall foi a T, denote a = Some T ->
-  forall d p, parse_ann foi a d p = parse foi T d p.
-Proof. intros foi a T. exact (proj1 (pd_all foi) a T). Qed.
+Theorem C16_parse_ann_is_parse : forall pol foi a T, denote pol a = Some T ->
+  forall d p, parse_ann pol foi a d p = parse foi T d p.
+Proof. intros pol foi a T. exact (proj1 (pd_all foi pol) a T). Qed.
 Print Assumptions C16_parse_ann_is_parse.
 
 (* ... so for a class that passed the check: parsing is parsing in the accepted grammar (all the
    theorems above apply), and every annotation the parser can be called on while parsing for it —
    every sub-annotation — passes the check itself: the branches for unsupported types (last Union
    member, ignored key type, builtin tuple, fall-through mismatch) are never taken *)
-Theorem C16_checked_parses_in_grammar : forall foi a p, check a p = COk ->
-  exists T, denote a = Some T /\
-    (forall d q, parse_ann foi a d q = parse foi T d q) /\
-    (forall b, subann b a -> forall p', check b p' = COk).
+Theorem C16_checked_parses_in_grammar : forall foi pol a p, check pol a p = COk ->
+  exists T, denote pol a = Some T /\
+    (forall d q, parse_ann pol foi a d q = parse foi T d q) /\
+    (forall b, subann b a -> forall p', check pol b p' = COk).
 Proof. exact checked_parses_in_grammar. Qed.
 Print Assumptions C16_checked_parses_in_grammar.
 
@@ -226,20 +258,35 @@ Qed.
 (* class with fields  a: Optional[List[Tuple[int, Dict[str, float]]]]  and  r: Tuple (bare): accepted *)
 Definition ex_ann_ok := AStruct (AFCons [97] (AOpt (AList (ATuple (ACons AInt (ACons (ADict true AFloat) ANil))))) None
                                 (AFCons [114] (ARaw RTuple) None AFNil)).
-Example C16_example_check_ok : check ex_ann_ok [] = COk /\
-  denote ex_ann_ok = Some (TStruct (FCons [97] (TOpt (TList (TTuple (TCons TInt (TCons (TDict TFloat) TNil))))) None
+Definition pol_off (_ : nat) := false.
+Definition pol_on (_ : nat) := true.
+Example C16_example_check_ok : check pol_off ex_ann_ok [] = COk /\
+  denote pol_off ex_ann_ok = Some (TStruct (FCons [97] (TOpt (TList (TTuple (TCons TInt (TCons (TDict TFloat) TNil))))) None
                                    (FCons [114] TRawTuple None FNil))).
 Proof. split; reflexivity. Qed.
 (* field a: List[Tuple[int, Dict[int, float]]]: refused at a.[].[1] for the key type;
    field u: Union[int, str] refused at u; without the check the parser would take str *)
 Example C16_example_check_refused :
-  check (AStruct (AFCons [97] (AList (ATuple (ACons AInt (ACons (ADict false AFloat) ANil)))) None AFNil)) []
+  check pol_off (AStruct (AFCons [97] (AList (ATuple (ACons AInt (ACons (ADict false AFloat) ANil)))) None AFNil)) []
     = CErr CNonStrKey [CField [97]; CAny; CIdx 1] /\
-  check (AStruct (AFCons [117] (AUnion (ACons AInt (ACons AStr ANil)) false) None AFNil)) []
+  check pol_off (AStruct (AFCons [117] (AUnion (ACons AInt (ACons AStr ANil)) false) None AFNil)) []
     = CErr CUnion [CField [117]] /\
-  parse_ann ex_foi (AUnion (ACons AInt (ACons AStr ANil)) false) (JStr [120]) [] = Ok (VStr [120]) /\
-  parse_ann ex_foi (AUnion (ACons AInt (ACons AStr ANil)) false) (JInt 1) [] = Err Mismatch [].
+  parse_ann pol_off ex_foi (AUnion (ACons AInt (ACons AStr ANil)) false) (JStr [120]) [] = Ok (VStr [120]) /\
+  parse_ann pol_off ex_foi (AUnion (ACons AInt (ACons AStr ANil)) false) (JInt 1) [] = Err Mismatch [].
 Proof. repeat split; reflexivity. Qed.
 Example C16_example_raw_tuple :
   parse ex_foi TRawTuple (JList [JInt 1; JList [JNull]]) [] = Ok (VTuple [VInt 1; VList [VNull]]).
 Proof. reflexivity. Qed.
+
+(* the two allowed treatments of the spelling  x: int | None  (family 0), equivalent Optional[int] *)
+Example C16_example_alt_spelling :
+  check pol_off (AStruct (AFCons [120] (AAlt 0 (AOpt AInt)) None AFNil)) [] = CErr CType [CField [120]] /\
+  check pol_on (AStruct (AFCons [120] (AAlt 0 (AOpt AInt)) None AFNil)) [] = COk /\
+  denote pol_on (AAlt 0 (AOpt AInt)) = Some (TOpt TInt) /\
+  parse_ann pol_on ex_foi (AAlt 0 (AOpt AInt)) JNull [] = Ok VNull /\
+  parse_ann pol_on ex_foi (AAlt 0 (AOpt AInt)) (JStr [120]) [] = Err Mismatch [].
+Proof. repeat split; reflexivity. Qed.
+(* CR LF kept by an implementation that returns comment-free texts unchanged: allowed *)
+Example C16_example_strip_choice : strip_ok [123; 13; 10; 125]%N [123; 13; 10; 125]%N /\
+  strip [123; 13; 10; 125]%N = [123; 10; 10; 125]%N.
+Proof. split; reflexivity. Qed.
